@@ -250,6 +250,9 @@ def is_soon(dt, window):
 
     :return: True if expiration is within the given duration
     """
+    if isinstance(dt, str):
+        dt = parse_isotime(dt)
+
     soon = (utcnow() + datetime.timedelta(seconds=window))
     return normalize_time(dt) <= soon
 
